@@ -44,7 +44,7 @@ func init() {
 			base, file := layout.Concrete(cs.Base), layout.Concrete(cs.Lines)
 			crlf := layCRLF(cs.Lay)
 			recs[i] = c19Rec{Ev: "Case", ID: cs.ID, Lay: cs.Lay, Lines: cs.Lines, Base: cs.Base,
-				Strict: layout.ParseEOL(base, true, crlf), Relaxed: layout.ParseEOL(base, false, crlf), Wrapped: layout.ParseEOL(file, false, crlf)}
+				Strict: layout.ParseWith(base, true, crlf, layThanos(cs.Lay)), Relaxed: layout.ParseEOL(base, false, crlf), Wrapped: layout.ParseEOL(file, false, crlf)}
 		})
 		for _, r := range recs {
 			out.Write(r)
